@@ -6,7 +6,7 @@ symbolic string; walking concrete malformed strings would be fuzzing, not solvin
 import random
 from fractions import Fraction
 
-from .common import EXPONENTS, PREFIX, And, Case, call, check_names, exact_eq
+from .common import EXPONENTS, PREFIX, And, Case, Or, call, check_names, exact_eq
 from .common import close as plain_close
 from .unitterms_common import (A, Dv, K, M, Mono, P, S, atoms_of, build, catalogue, depth, dimvec, lcm, mono, mono_dimvec, mono_scale,
                                numeric_coefficient, positive_scale, root_degree, tid)
@@ -29,7 +29,14 @@ MANIFEST = dict(
           "default one) goes through one to three of add / add offset+prefixable / define_unit / modify / modify to the same value / modify "
           "by a quantity / remove / remove+re-add / first lookup of prefixed names / edit of a sibling copy / early printing, with symbolic new "
           "values on symbols the unit does not mention, and only then the text (taken before and after) is read again from a cold and a warm "
-          "unit-object cache: equal unit for all scales, identical expression, hash(v) == hash(u) now, one set element, mutual dict hits. NOT covered "
+          "unit-object cache: equal unit for all scales, identical expression, hash(v) == hash(u) now, one set element, mutual dict hits. "
+          "NAMES THE VOCABULARY ALREADY KNOWS (C20/names): the registry gets a row - z3-real scale/offset, added by add / add prefixable / add with offset / "
+          "define_unit, in a fresh registry or the process-global default one - under a name that is a documented alternative spelling (au, in, um, meter), "
+          "an SI-prefix reading (mH, kpc, cm, k+xa), a table key (m, pc, degC) or fresh, and every history of {bare read, full use, add, modify, remove, modify "
+          "the prefix base} up to length 2/3 (4 sampled) runs on that name; then 12 spellings of the bare name (incl. utf-8 bytes) are read from the cache the "
+          "history left and from an empty one: one outcome, one unit, identical expression/hash, the reading an independent reference model of the table gives "
+          "(row, else prefix + prefixable row; for a row under a documented alternative spelling: that row or the documented unit, the same everywhere), and 13 "
+          "arithmetic results on the unit from the bare string and from a compound spelling are printed and re-read warm and cold. NOT covered "
           "(not applicable to this technique): totality of the parser on arbitrary strings and rejection of malformed input."),
     design="DESIGN.md section 4 C20",
     technique="symbolic execution of the real Python code over z3 real terms (strings concrete); SMT obligations per path; counterexample replay")
@@ -48,7 +55,13 @@ EXPLANATION = (
     "dimension, equality both ways, identical expression, equal hash at that moment, set and dict behaviour, hash stability, unchanged print. "
     "The special-unit and spelling cases repeat their whole table after an add+modify+remove of unrelated symbols (units made and hashed before, "
     "texts read after). Unit caches are cleared by the runner only at the start of a path, so every history is one uninterrupted life of the "
-    "registry and its units."
+    "registry and its units. Names (C20/names/<registry>/<class>-<name>/<form of add>/<history word>): UnitRegistry.add/modify/remove and define_unit run for "
+    "real on a name that parse_unyt_expr/_auto_positive_symbol (documented alternative names), _lookup_unit_symbol/_split_prefix (SI-prefix fallback) or the table "
+    "itself already answer to, interleaved with reads that fill the registry's unit-object cache; the new scales/offsets are z3 reals. Afterwards Unit(s) runs for 12 "
+    "spellings s of the bare name - first without touching the cache, then from an empty cache - and z3 decides that each result has the scale/offset the harness' "
+    "reference model of the table (_Rows: alternative spelling -> canonical name, row, else prefix x prefixable row) gives, for all scales; the units obtained from the "
+    "bare string and from '1*name' go through **2, **-1, **0.5, /xc, xa*, (a*xc)/xc, (a**2)**0.5, *1, **1, xc**2/a**(3/2) and str()/repr() of each result is re-read "
+    "warm and cold against the result."
 )
 BOUNDS = {
     "quick": "atoms {xa, xb, kxa, %, ohm-sign, angstrom-sign, micro-m}; all 196 terms of depth <= 1, 200 seeded of depth 2, 200 of depth 3 (root degree <= 36), each "
@@ -58,10 +71,17 @@ BOUNDS = {
              "unrelated symbols; histories: 31 terms (17 with oracle scale incl. simplify()/coefficient terms, 14 offset/log/angle/bare) x all 11 one-step histories in a fresh "
              "registry, 17 two-step (all 9 ordered pairs of add/modify/remove + 8 mixed) and 12 three-step histories (all 6 orders of add, modify, remove + 6 mixed) x 2 rotating terms, "
              "and all 40 histories x 1 rotating term in each of copy.copy(registry), deepcopy(registry) and the default registry (519 cases); in each case 7 hashing routes "
-             "(+ the unit read from its own text) x str/repr x text printed before/after x cold/warm unit-object cache x text/bytes",
+             "(+ the unit read from its own text) x str/repr x text printed before/after x cold/warm unit-object cache x text/bytes; "
+             "names: 27 names (2 fresh, 11 documented alternative spellings, 8 SI-prefix readings incl. k/da/micro + the symbolic xa, 6 table keys) x the plain reading and every "
+             "history over {r, o, A, M, X, B} of length <= 2 ending in an edit (plain add); every history of length 3 with one name per class; add prefixable / with offset / "
+             "define_unit: every history of length <= 2 containing an add, one name per class and form (k+name observed too for prefixable rows); default registry: every "
+             "history over {r, o, A} of length <= 3, one name per class and form (638 cases); per case 12 spellings x warm/cold cache and 13 arithmetic results x str/repr x warm/cold",
     "thorough": "same atoms; 1500 seeded terms of depth 2, 1500 of depth 3; 1396 terms in 4 surface syntaxes; 600 simplify() terms; 9 coefficients x 60 terms; special and "
                 "spelling tables as in quick; every table symbol and every SI-prefixed prefixable symbol alone and to the powers -1, 2, 1/2 over a symbolic xc (ground scales); "
-                "histories as in quick with 8 rotating terms per multi-step history in the fresh registry and 4 per history in the three other registry configurations (1053 cases)",
+                "histories as in quick with 8 rotating terms per multi-step history in the fresh registry and 4 per history in the three other registry configurations (1053 cases); "
+                "names: every history of length <= 3 for all 27 names (plain add) and for three names per class in the three other forms, a seeded sample of 150 "
+                "histories of length 4 per class, the default registry for every name, and 105 more names drawn with a fixed seed from unyt's tables (40 alternative "
+                "spellings, 40 prefix readings, 25 keys) with every history of length <= 2 (4798 cases)",
 }
 OUTSIDE = ("NOT APPLICABLE and not claimed: totality (any string parses or raises UnitParseError, nothing else is evaluated) and malformed-input fuzzing. "
            "Also outside: strings are concrete (only scales/offsets are solver variables); float exponents that are not small rationals in disguise "
@@ -69,7 +89,10 @@ OUTSIDE = ("NOT APPLICABLE and not claimed: totality (any string parses or raise
            "(not names of the table); persistence layers themselves (C11); a second registry (C13); rounding (A1). Histories: edits of a symbol the unit itself mentions "
            "(the old object then legitimately differs from what its text now denotes: C12), histories longer than three steps, units restored by pickle/JSON/HDF5 (the "
            "z3-valued table cannot be pickled: C11), hash equality between different registries or between a hash taken before an edit and one taken after it (the registry "
-           "digest is part of the hash by design; only hashes asked at the same moment are compared)")
+           "digest is part of the hash by design; only hashes asked at the same moment are compared). Names: WHICH reading a row under a documented alternative spelling "
+           "gets (on the pinned tree the documented unit always wins, the user's row 'au' cannot be reached by a string: a C14 matter) is not decided here, only that it is the "
+           "same in every spelling; histories on one name longer than 4 (quick: 3) steps; two colliding names in one registry; names that are not identifiers; the default "
+           "registry's own keys are not redefined (process-global state)")
 ASSUMPTIONS = ["MonoReal (harness/unitterms_common.py): a positive scale symbol is introduced as t**N; the exponent arithmetic that keeps products, "
                "quotients and rational powers of such scales in exact monomial form, and the reduction of closeness/isclose of two monomials over the "
                "same power product to their rational coefficients, are harness code",
@@ -557,10 +580,11 @@ class _History:
 def _scrub_default(mods):
     """the default registry is process-global: take the harness' symbols out again (also when a path is abandoned)"""
     reg = mods["UR"].default_unit_registry
-    dirty = [n for n in list(reg.lut) if n in _HARNESS_SYMBOLS]
+    from unyt._unit_lookup_table import default_unit_symbol_lut as pristine
+    dirty = [n for n in list(reg.lut) if n in _HARNESS_SYMBOLS or (n in _COLLIDING and n not in pristine)]
     for n in dirty:
         del reg.lut[n]
-        if hasattr(mods["unyt"], n):
+        if n in _HARNESS_SYMBOLS and hasattr(mods["unyt"], n):
             delattr(mods["unyt"], n)
     if dirty:
         reg._unit_system_id = None
@@ -689,6 +713,391 @@ def hist_cases(quick):
     return out
 
 
+# ----------------------------------------------------------------------------- rows whose NAME the string interface already knows
+#
+# The families above give the registry rows under names nothing else answers to (xa, xb ...), and edit only such names. A registry
+# in use is not like that: a dataset adds "mH", "au", "kpc", "cm", "h" - spellings that unyt's vocabulary ALREADY resolves, through
+# the table of documented alternative names (au -> AU, in -> inch, um -> the micro-metre), through the SI-prefix fallback (mH = m+H,
+# kpc) or as a table key (m, pc). Then the same text has two candidate readings, and which one a string gets must not depend on HOW
+# the text is presented (alone, inside a compound, as the printed form of an arithmetic result) nor on WHEN it was first read (before
+# or after the row came, went or changed). This family walks: name class x the way the row is added x every history of
+# {read, full read, add, modify, remove, modify the prefix base} up to a length, in a registry whose row scales are z3 reals, and
+# at the end reads every spelling from the cache the history left behind and from an empty one.
+
+NAME_CLASSES = {
+    "fresh": ["xq", "µq"],
+    # a documented alternative spelling of a table unit (the parser rewrites the name before any table is asked)
+    "alt": ["au", "in", "l", "um", "µm", "meter", "deg", "celsius", "ohm", "kilometer", "d"],
+    # no row of its own: SI prefix + prefixable symbol (kxa, μxa: the harness' own prefixable row, symbolic reading)
+    "prefix": ["mH", "kpc", "Gyr", "cm", "kxa", "μs", "μxa", "daxa"],
+    # a key of the default table: the row is there from the start (adding = redefinition)
+    "key": ["m", "H", "pc", "Å", "degC", "percent"],
+}
+ADD_FORMS = ["plain", "prefixable", "offset", "define"]
+NAME_CONFIGS = ["custom", "default"]
+_COLLIDING = set()          # filled by names_cases(): what _scrub_default has to take out of the default table again
+
+
+def _alt():
+    from unyt._unit_lookup_table import inv_name_alternatives
+    return inv_name_alternatives
+
+
+_PREFIXES = sorted(PREFIX, key=len, reverse=True)
+_DEFAULT_ROWS = {}
+
+
+def _default_row(n):
+    if n not in _DEFAULT_ROWS:
+        from unyt._unit_lookup_table import default_unit_symbol_lut as lut
+        r = lut.get(n)
+        _DEFAULT_ROWS[n] = None if r is None else dict(scale=float(r[0]), dv=dimvec(r[1]), offset=float(r[2]), prefixable=bool(r[4]))
+    return _DEFAULT_ROWS[n]
+
+
+class _Rows:
+    """the harness' account of the registry's table: the default table (a pure table of unyt, read like table_unit does), the
+    harness rows with their symbolic scales, and what the history did. reading(name) is the reference model of what a NAME inside a
+    unit string denotes: documented alternative spelling -> canonical name; a row of that name; else SI prefix + prefixable row."""
+
+    def __init__(self, scale_of, dimvec_of):
+        self.over = {}
+        for n, pref in (("xa", True), ("xb", False), ("xc", False)):
+            self.over[n] = dict(scale=scale_of[n], dv=dict(dimvec_of[n]), offset=0.0, prefixable=pref)
+
+    def row(self, n):
+        if n in self.over:
+            return self.over[n]
+        return _default_row(n)
+
+    def split(self, n):
+        for p in _PREFIXES:
+            b = n[len(p):]
+            if n.startswith(p) and b:
+                r = self.row(b)
+                if r is not None and r["prefixable"]:
+                    return p, b
+        return None
+
+    def raw_reading(self, n):
+        r = self.row(n)
+        if r is not None:
+            return r
+        s = self.split(n)
+        if s is None:
+            return None
+        r = self.row(s[1])
+        return dict(scale=r["scale"] * PREFIX[s[0]], dv=r["dv"], offset=r["offset"], prefixable=False)
+
+    def reading(self, n):
+        return self.raw_reading(_alt().get(n, n))
+
+    def shadowed(self, n):
+        """a row the history put under a documented alternative spelling of another unit"""
+        return _alt().get(n, n) != n and self.over.get(n) is not None
+
+
+def _name_spellings(n):
+    return [n, f"{n}**1", f"1*{n}", f"({n})", f" {n} ", n.encode("utf-8"), f"{n}*1", f"{n}/1", f"{n}**1.0", f"sqrt({n}**2)", f"{n}*xc/xc", f"({n}**2)**(1/2)"]
+
+
+def _name_shapes(a, env, few=False):
+    """arithmetic on the unit a string gave (few: the three shapes tried on the unit a compound spelling gave)"""
+    xa, xc, one = env["xa"], env["xc"], env["1"]
+    if few:
+        return [("a**2", lambda: a ** 2), ("a/xc", lambda: a / xc), ("(a*xc)/xc", lambda: (a * xc) / xc)]
+    return [("a**2", lambda: a ** 2), ("a**-1", lambda: a ** -1), ("a**0.5", lambda: a ** 0.5), ("a/xc", lambda: a / xc), ("xa*a", lambda: xa * a),
+            ("(a*xc)/xc", lambda: (a * xc) / xc), ("(a**2)**0.5", lambda: (a ** 2) ** 0.5), ("a*1", lambda: a * one), ("a**1", lambda: a ** 1),
+            ("xc**2/a**(3/2)", lambda: xc ** 2 / a ** F(3, 2))]
+
+
+def _is(r, want):
+    return And(close(r.base_value, want["scale"]), dimvec(r.dimensions) == want["dv"], close(r.base_offset, want["offset"], extra=0))
+
+
+def _warm_reads(ctx, reg, names):
+    """what a program does that uses the names for a while: every spelling, arithmetic on the result, printing and re-reading -
+    no obligations, the point is what it leaves in the registry's unit-object cache"""
+    Unit = ctx.mods["unyt"].Unit
+    env = _Env(Unit, reg)
+    for n in names:
+        atoms = []
+        for s in _name_spellings(n):
+            r = call(lambda: Unit(s, registry=reg))
+            if r[0] == "ok" and s in (n, f"1*{n}"):
+                atoms.append(r[1])
+        for i, a in enumerate(atoms):
+            for _, f in _name_shapes(a, env, few=i > 0):
+                r = call(f)
+                if r[0] == "ok":
+                    for g in (str, repr):
+                        call(lambda: Unit(g(r[1]), registry=reg))
+
+
+def _reread(ctx, tag, w, reg, how, bytes_too=True):
+    """Unit(str(w)) / Unit(repr(w)) against w: first from the unit-object cache as the history left it, then from an empty one"""
+    Unit = ctx.mods["unyt"].Unit
+    coef = numeric_coefficient(w.expr)
+    identical = coef == 1 and not w.expr == 1
+    for fname, f in (("str", str), ("repr", repr)):
+        s = f(w)
+        for temp in ("warm", "cold"):
+            if temp == "cold":
+                reg._unit_object_cache.clear()
+            t = f"{tag} {fname} [{temp} cache]"
+            r = call(lambda: Unit(s, registry=reg))
+            ctx.require(f"{t}: parses", r[0] == "ok", printed=s, got=r[1], built=how)
+            if r[0] != "ok":
+                continue
+            v = r[1]
+            ctx.require(f"{t}: same dimension", dimvec(v.dimensions) == dimvec(w.dimensions), printed=s, built=how)
+            ctx.require(f"{t}: same scale for all scales", close(v.base_value, w.base_value), printed=s, built=how)
+            ctx.require(f"{t}: same offset", close(v.base_offset, w.base_offset), printed=s, built=how)
+            ctx.require(f"{t}: equal unit", bool(v == w) and bool(w == v), printed=s, built=how)
+            if identical:
+                ctx.require(f"{t}: identical expression and hash (no numeric coefficient)", And(v.expr == w.expr, hash(v) == hash(w)), printed=s, reread=repr(v), built=how)
+                ctx.require(f"{t}: printing is a fixed point", f(v) == s, printed=s, reprinted=f(v), built=how)
+        if not bytes_too:
+            continue
+        reg._unit_object_cache.clear()
+        rb = call(lambda: Unit(s.encode("utf-8"), registry=reg))
+        ctx.require(f"{tag} {fname}: the utf-8 bytes of the text read as the text does",
+                    rb[0] == "ok" and And(dimvec(rb[1].dimensions) == dimvec(w.dimensions), close(rb[1].base_value, w.base_value), close(rb[1].base_offset, w.base_offset)),
+                    printed=s, got=rb[1], built=how)
+
+
+def _observe_name(ctx, reg, rows, n):
+    """every spelling of the bare name n, read warm then cold: one outcome, one unit, the one the reference model names; then
+    arithmetic on the unit the bare string gave and on the one a compound spelling gave, printed and read again"""
+    Unit = ctx.mods["unyt"].Unit
+    want = rows.reading(n)
+    shadow = rows.shadowed(n)
+    cands = [c for c in ((rows.over.get(n) if shadow else None), want) if c is not None]
+    first = None
+    atoms = {}
+    for temp in ("warm", "cold"):
+        for s in _name_spellings(n):
+            if temp == "cold":
+                reg._unit_object_cache.clear()
+            r = call(lambda: Unit(s, registry=reg))
+            t = f"name [{temp} cache]"
+            ctx.require(f"{t}: a spelling of the name parses or raises UnitParseError", r[0] == "ok" or type(r[1]).__name__ == "UnitParseError", spelling=s, got=r[1])
+            if not cands:
+                ctx.require(f"{t}: a name no row and no prefix rule answers to is refused in every spelling", r[0] == "raise", spelling=s, got=r[1])
+                continue
+            ctx.require(f"{t}: parses", r[0] == "ok", spelling=s, got=r[1])
+            if r[0] != "ok":
+                continue
+            v = r[1]
+            if temp == "warm" and s in (n, f"1*{n}"):
+                atoms[s] = v
+            if shadow:
+                # documented alternative spelling AND a row of the user: the property does not say which wins, only that it is one of
+                # the two and (below) the same one in every spelling
+                hit = _is(v, cands[0])
+                for c in cands[1:]:
+                    hit = Or(hit, _is(v, c))
+                ctx.require(f"{t}: the name reads as the user's row or as the documented unit it is an alternative spelling of", hit, spelling=s, got=repr(v))
+            else:
+                ctx.require(f"{t}: the name denotes what the table says now (row, else SI prefix + prefixable row): scale for all scales, dimension, offset",
+                            _is(v, want), spelling=s, got=repr(v), scale=v.base_value)
+            if first is None:
+                first = (s, v)
+                continue
+            ctx.require(f"{t}: equivalent spellings of the name give equal units (dimension, offset, scale for all scales)",
+                        And(dimvec(v.dimensions) == dimvec(first[1].dimensions), close(v.base_offset, first[1].base_offset), close(v.base_value, first[1].base_value)),
+                        spelling=s, reference=first[0], got=repr(v))
+            ctx.require(f"{t}: equivalent spellings of the name give the identical expression and hash", And(v.expr == first[1].expr, hash(v) == hash(first[1])),
+                        spelling=s, reference=first[0], got=repr(v))
+    env = _Env(Unit, reg)
+    n_built = 0
+    for s, a in atoms.items():
+        how0 = "bare string" if s == n else "compound string"
+        for shape, f in _name_shapes(a, env, few=s != n):
+            r = call(f)
+            if r[0] != "ok":
+                ctx.require("arithmetic: an operation the unit algebra refuses raises InvalidUnitOperation", type(r[1]).__name__ == "InvalidUnitOperation", shape=shape, got=r[1])
+                continue
+            n_built += 1
+            _reread(ctx, f"arithmetic on the unit from the {how0}:", r[1], reg, f"{shape}, a = Unit({s!r})", bytes_too=shape in ("a**2", "xa*a"))
+    return n_built
+
+
+def _static_rows():
+    return _Rows({"xa": 1.0, "xb": 1.0, "xc": 1.0}, {"xa": {L_: F(1)}, "xb": {M_: F(1)}, "xc": {T_: F(1)}})
+
+
+def _name_base(rows, n):
+    """(prefix, base symbol) when the name - after the documented-alternative rewriting - is answered by the SI-prefix rule"""
+    c = _alt().get(n, n)
+    return rows.split(c) if rows.row(c) is None else None
+
+
+_WORDS = {}
+
+
+def name_words(n, form, maxlen, alphabet="roAMXB"):
+    key = (n, form if form == "define" else "", maxlen, alphabet)
+    if key not in _WORDS:
+        _WORDS[key] = _name_words(n, form, maxlen, alphabet)
+    return _WORDS[key]
+
+
+def _name_words(n, form, maxlen, alphabet):
+    """histories over r (the bare name is read), o (the name is used for a while: _warm_reads), A (add in the case's form), M (modify),
+    X (remove), B (modify the row the SI-prefix rule builds the name from): every word up to maxlen that ends in an edit and has no two
+    reads in a row. M and X need a row of that name; define_unit refuses a name the registry answers to (the refusal is then the event)"""
+    rows = _static_rows()
+    has_base = _name_base(rows, n) is not None
+    out = []
+
+    def rec(w, pres):
+        if w and w[-1] not in "ro":           # (a read just before the final reading adds nothing: that one reads everything, warm, anyway)
+            out.append("".join(w))
+        if len(w) == maxlen:
+            return
+        for c in alphabet:
+            if c in "ro" and w and w[-1] in "ro":
+                continue
+            if c in "MX" and not pres:
+                continue
+            if c == "B" and not has_base:
+                continue
+            nxt = pres
+            if c == "A":
+                rows.over[n] = {} if pres else None
+                nxt = pres if (form == "define" and (pres or rows.raw_reading(n) is not None)) else True
+                rows.over.pop(n, None)
+            elif c == "X":
+                nxt = False
+            rec(w + [c], nxt)
+    rec([], rows.row(n) is not None)
+    return out
+
+
+def make_names_case(cls, n, form, word, config):
+    def h(ctx):
+        mods = ctx.mods
+        D, Unit = mods["unyt"].dimensions, mods["unyt"].Unit
+        if config == "default":
+            _scrub_default(mods)
+        try:
+            reg, env, scale_of, dimvec_of = make_env(ctx, N=2, base=mods["UR"].default_unit_registry if config == "default" else None)
+            rows = _Rows(scale_of, dimvec_of)
+            base = _name_base(rows, n)
+            names = [n] + (["k" + n] if form == "prefixable" else [])
+            k = 0
+            for ev in word:
+                k += 1
+                if ev == "r":
+                    call(lambda: Unit(n, registry=reg))
+                elif ev == "o":
+                    _warm_reads(ctx, reg, names)
+                elif ev == "A":
+                    s = positive_scale(ctx, f"tn{k}", 2)
+                    if form == "define":
+                        q = ctx.quantity(s, Unit("xb", registry=reg), reg)
+                        r = call(lambda: mods["UO"].define_unit(n, q, registry=None if config == "default" else reg))
+                        if rows.raw_reading(n) is not None:
+                            ctx.require("history: define_unit refuses a name the registry already answers to (RuntimeError)", r[0] == "raise" and type(r[1]).__name__ == "RuntimeError", name=n, got=r[1])
+                        else:
+                            ctx.require("history: define_unit accepts a name the registry does not answer to", r[0] == "ok", name=n, got=r[1])
+                            rows.over[n] = dict(scale=s * scale_of["xb"], dv={M_: F(1)}, offset=0.0, prefixable=False)
+                    elif form == "offset":
+                        o = ctx.real(f"on{k}", nonzero=True)
+                        reg.add(n, s, D.temperature, offset=o)
+                        rows.over[n] = dict(scale=s, dv={TH_: F(1)}, offset=o, prefixable=False)
+                    else:
+                        reg.add(n, s, D.force, prefixable=(form == "prefixable"))
+                        rows.over[n] = dict(scale=s, dv={M_: F(1), L_: F(1), T_: F(-2)}, offset=0.0, prefixable=(form == "prefixable"))
+                elif ev == "M":
+                    s = positive_scale(ctx, f"tn{k}", 2)
+                    reg.modify(n, s)
+                    rows.over[n] = dict(rows.row(n), scale=s)
+                elif ev == "X":
+                    reg.remove(n)
+                    rows.over[n] = None
+                elif ev == "B":
+                    s = positive_scale(ctx, f"tn{k}", 2)
+                    reg.modify(base[1], s)
+                    rows.over[base[1]] = dict(rows.row(base[1]), scale=s)
+                else:
+                    raise KeyError(ev)
+            built = 0
+            for m in names:
+                built += _observe_name(ctx, reg, rows, m)
+            ctx.observe("units built by arithmetic and re-read", built)
+        finally:
+            if config == "default":
+                _scrub_default(mods)
+    return Case(f"C20/names/{config}/{cls}-{n}/{form}/{word}", h, group="names")
+
+
+def _sample_names(n_alt, n_prefix, n_key, seed=29):
+    """more names of each class, drawn with a fixed seed from unyt's own tables (pure tables)"""
+    from unyt._unit_lookup_table import default_unit_symbol_lut as lut, unit_prefixes
+    rnd = random.Random(seed)
+    ok = lambda s: s.isidentifier() or all(ch.isalnum() or ch in "_µμΩÅ" for ch in s)   # noqa: E731
+    alt = sorted(k for k, v in _alt().items() if k != v and k not in lut and ok(k))
+    pre = sorted(p + k for k in lut if lut[k][4] for p in unit_prefixes if p + k not in lut and ok(p + k) and _alt().get(p + k, p + k) == p + k)
+    # table keys: not the ones with special dimensions (offset / logarithmic units keep special rules in the unit algebra)
+    key = sorted(k for k in lut if ok(k) and float(lut[k][2]) == 0.0 and "logarithmic" not in str(lut[k][1]))
+    known = {n for ns in NAME_CLASSES.values() for n in ns}
+    pick = lambda pool, n: rnd.sample([x for x in pool if x not in known], min(n, len(pool)))   # noqa: E731
+    return {"alt": pick(alt, n_alt), "prefix": pick(pre, n_prefix), "key": pick(key, n_key)}
+
+
+def names_cases(quick):
+    """name class x name x form of the add x history x registry configuration (see the comment above NAME_CLASSES).
+    quick: the plain observation and every history of length <= 2 for every listed name (plain add); every history of length 3 meets one
+    name of each class; the other forms of add: every history of length <= 2 with an add, names rotating; the default registry: every
+    add-and-read history of length <= 3 for one name of each class and form. thorough: every history of length <= 3 for every listed name
+    (plain add) and for three names per class in the other forms; a seeded sample of 150 histories of length 4 per class; the default
+    registry for every name; 105 more names drawn from unyt's tables with every history of length <= 2."""
+    out, seen = [], set()
+
+    def add(cls, n, form, word, config="custom"):
+        key = (n, form, word, config)
+        if key not in seen:
+            seen.add(key)
+            _COLLIDING.add(n)
+            _COLLIDING.add("k" + n)
+            out.append(make_names_case(cls, n, form, word, config))
+    L = 2 if quick else 3
+    rnd = random.Random(31)
+    for ci, (cls, names) in enumerate(NAME_CLASSES.items()):
+        for n in names:
+            add(cls, n, "plain", "")
+            for w in name_words(n, "plain", L):
+                add(cls, n, "plain", w)
+        # one level longer: each word meets one name of the class (thorough: a seeded sample of the words)
+        ws = sorted({w for n in names for w in name_words(n, "plain", L + 1)} - {w for n in names for w in name_words(n, "plain", L)})
+        if not quick:
+            ws = rnd.sample(ws, min(150, len(ws)))
+        for k, w in enumerate(ws):
+            fit = [n for n in names if w in name_words(n, "plain", L + 1)]
+            add(cls, fit[(k + ci) % len(fit)], "plain", w)
+        # the other forms of add
+        for fi, form in enumerate(ADD_FORMS[1:]):
+            some = names if len(names) <= 3 else [names[(fi + j * 2) % len(names)] for j in range(1 if quick else 3)]
+            for n in some:
+                for w in name_words(n, form, L):
+                    if "A" in w:
+                        add(cls, n, form, w)
+        # the process-global default registry (it refuses modify/remove; its own keys are left alone)
+        if cls != "key":
+            for fi, form in enumerate(("plain", "prefixable", "offset")):
+                for n in ([names[fi % len(names)]] if quick else names):
+                    for w in name_words(n, form, 3, alphabet="roA"):
+                        add(cls, n, form, w, "default")
+    if not quick:
+        for cls, names in _sample_names(40, 40, 25).items():
+            for n in names:
+                for w in name_words(n, "plain", 2):
+                    add(cls, n, "plain", w)
+    return out
+
+
 def simp_terms(n, seed=23):
     rnd = random.Random(seed)
     out = [Dv(P(A("m"), 2), A("cm")), Dv(A("km"), A("μm")), M(A("%"), A("%")), Dv(A("%"), A("%")), P(A("%"), 2), M(A("xb"), Dv(A("m"), A("cm"))),
@@ -745,6 +1154,7 @@ def cases(tier, mods):
     for i, (identical, group) in enumerate(SPELL):
         out.append(make_spell_case(i, identical, group))
     out.extend(hist_cases(quick))
+    out.extend(names_cases(quick))
     if not quick:
         from unyt._unit_lookup_table import default_unit_symbol_lut as lut, unit_prefixes
         names = sorted(lut)
